@@ -108,4 +108,40 @@ Section Inst.
     use (@spec_recovers_idle key V). apply (repr_pf _ _ _ R).
   Qed.
 
+  Lemma k_fires_only_bound (t : trie) (d : dict) (st : chord) (k : key) (st' : chord) (v : V) :
+    repr key_cmp t d -> lookup_state key_cmp t st k = (st', Some v) ->
+    st' = [] /\ (In (st ++ [k], v) d \/ (lookup t (st ++ [k]) = Failure /\ In ([k], v) d)).
+  Proof.
+    intros R H. rewrite (lookup_state_spec key_cmp t d st k (repr_refines _ _ _ R)) in H.
+    rewrite (repr_refines _ _ _ R) by (destruct st; discriminate).
+    exact (spec_handle_fires_bound key_cmp key_cmp_eq d st k st' v (repr_pf _ _ _ R) H).
+  Qed.
+
 End Inst.
+
+(* the literal "never prevents" claim, quantified over every state reachable by typing
+   keys from idle, fails: bound  a u c -> 1  and  c -> 2 ;  u begins no bound chord; after
+   typing a, the keys u c fire 1 (the three-key chord), not 2 *)
+Definition literal_never_prevents (h : list (list key * N)) : Prop :=
+  forall (pre : list key) (u : key) (c : list key) (v : N),
+    begins_no_chord u (spec_build key_cmp h) -> In (c, v) (spec_build key_cmp h) ->
+    let st := fst (run key_cmp (build key_cmp h) [] pre) in
+    exists st' o, lookup_state key_cmp (build key_cmp h) st u = (st', o)
+                  /\ run key_cmp (build key_cmp h) st' c = ([], fires_at_last v (length c)).
+
+Definition ka : key := Key (KChar 97) 0.
+Definition ku : key := Key (KChar 117) 0.
+Definition kc' : key := Key (KChar 99) 0.
+
+Lemma literal_never_prevents_refuted :
+  exists h, ~ literal_never_prevents h.
+Proof.
+  exists [([ka; ku; kc'], 1%N); ([kc'], 2%N)]. intros L.
+  specialize (L [ka] ku [kc'] 2%N).
+  assert (Hu : begins_no_chord ku (spec_build key_cmp [([ka; ku; kc'], 1%N); ([kc'], 2%N)])).
+  { intros c v Hin r. cbn in Hin. destruct Hin as [E|[E|[]]]; injection E as <- _; discriminate. }
+  assert (Hin : In ([kc'], 2%N) (spec_build key_cmp [([ka; ku; kc'], 1%N); ([kc'], 2%N)])) by (cbn; auto).
+  destruct (L Hu Hin) as [st' [o [E1 E2]]]. vm_compute in E1. injection E1 as <- <-.
+  vm_compute in E2. discriminate.
+Qed.
+
